@@ -27,7 +27,7 @@ StepKind(s) ==
   IF s.exec = <<>> THEN "empty"
   ELSE LET t == s.exec[1] IN
        IF t.k = "list" THEN "list"
-       ELSE IF t.k = "ins" THEN (IF t.v \in KnownInstr THEN "instr" ELSE "unknown")
+       ELSE IF t.k = "ins" THEN (IF t.v \in ExtraInstr THEN "extra" ELSE IF t.v \in KnownInstr THEN "instr" ELSE "unknown")
        ELSE IF t.k = "id" THEN (IF s.quote THEN "quoted" ELSE IF t.v \in DOMAIN s.bind THEN "bound" ELSE "free")
        ELSE "literal"
 
@@ -41,6 +41,7 @@ Step(s) ==
            CASE kind = "list"    -> Fired(SetF(r, "exec", t.v \o r.exec))
              [] kind = "instr"   -> Apply(t.v, r)
              [] kind = "unknown" -> Fired(r)
+             [] kind = "extra"   -> Fired(r)        \* unspecified (placeholder: such a step is never judged)
              [] kind = "quoted"  -> Fired([PushOn(r, "name", t.v) EXCEPT !.quote = FALSE])
              [] kind = "bound"   -> Fired(PushOn(r, "exec", s.bind[t.v]))
              [] kind = "free"    -> Fired(PushOn(r, "name", t.v))
